@@ -94,16 +94,16 @@ const REQ: &[u8] = b"GET /metrics HTTP/1.1\r\nHost: localhost\r\nAccept: */*\r\n
 
 /// perform one client behaviour; Err = could not even connect; Ok(Some(..)) = outcome of a
 /// well-formed request (which must be answered)
-fn act(addr: &str, c: Client) -> Result<Option<Result<Response, String>>, String> {
+fn act(addr: &str, c: Client, wait: Duration) -> Result<Option<Result<Response, String>>, String> {
     let mut answered = None;
     let mut s = TcpStream::connect(addr).map_err(|e| format!("connect: {e}"))?;
-    s.set_read_timeout(Some(Duration::from_millis(1500))).unwrap();
+    s.set_read_timeout(Some(wait)).unwrap();
     s.set_nodelay(true).ok();
     let settle = Duration::from_millis(15);
     match c {
         Client::Get => {
             let _ = s.write_all(REQ);
-            answered = Some(read_response(&mut s, Duration::from_millis(1500)));
+            answered = Some(read_response(&mut s, wait));
         }
         Client::ConnectClose => {}
         Client::ClosePartialLine => {
@@ -136,7 +136,7 @@ fn act(addr: &str, c: Client) -> Result<Option<Result<Response, String>>, String
             let _ = s.write_all(&REQ[..cut]);
             std::thread::sleep(settle);
             let _ = s.write_all(&REQ[cut..]);
-            answered = Some(read_response(&mut s, Duration::from_millis(1500)));
+            answered = Some(read_response(&mut s, wait));
         }
         Client::CloseAfter(k) => {
             const POST: &[u8] = b"POST /metrics HTTP/1.1\r\n\r\n";
@@ -201,7 +201,8 @@ impl Harness {
     fn run(&mut self, seq: &Seq, deadline: Duration) -> Result<(), String> {
         for (c, o) in &seq.0 {
             self.server.set(obs_behaviour(*o, &self.valid));
-            let answered = act(&self.exporter.addr, *c)?;
+            // answers inside the sequence get half the probe's deadline
+            let answered = act(&self.exporter.addr, *c, deadline / 2)?;
             if let Some(r) = answered {
                 // a well-formed request is itself answered: 200 with data, an error status without
                 let want = if *o == ObsKind::Valid { 200 } else { 500 };
@@ -343,9 +344,10 @@ pub fn run(tier: Tier) -> i32 {
             continue;
         }
         let first_err = r.err().unwrap_or_else(|| "the exporter burns CPU while idle".to_string());
-        // confirm on a fresh process before reporting
+        // confirm on a fresh process, with five times the deadline, before reporting: a wedged,
+        // exited or wrongly answering exporter fails at any deadline, a loaded machine does not
         h.restart();
-        let confirmed = match h.run(s, deadline) {
+        let confirmed = match h.run(s, deadline * 5) {
             Err(e) => Some(e),
             Ok(()) => {
                 if h.spinning() {
@@ -364,6 +366,11 @@ pub fn run(tier: Tier) -> i32 {
                 replay: json!({"seq": s}),
             });
             h.restart();
+            if failing >= 6 {
+                // enough: every further failing sequence would cost another confirmation run
+                rep.assume(format!("stopped after 6 confirmed failing sequences ({} of {} sequences run)", i + 1, seqs.len()));
+                break;
+            }
         }
     }
     let spinning_at_end = h.spinning();
@@ -383,7 +390,7 @@ pub fn run(tier: Tier) -> i32 {
     rep.cover("rule", json!("all sequences of (client behaviour, observation-socket behaviour) pairs: length 1 full product (11 x 5), plus a well-formed GET split after every byte position and cut off (close, reset) after every number of bytes; length 2 over all client pairs (quick: with a valid observation socket, plus all observation pairs on well-formed clients; thorough: full product) and, thorough, length 3 with at most two non-default elements and length 4 over all client triples and all observation-socket triples; each followed by a well-formed probe with a valid observation socket that must get status 200 within 3 s; non-trivial = sequences containing at least one hostile element"));
     rep.cover("samples", json!(seqs.iter().step_by(seqs.len() / 5 + 1).map(|s| json!(s)).collect::<Vec<_>>()));
     rep.cover("exhaustive", json!(true));
-    rep.assume("kernel-level timing of FIN/RST delivery is not controlled: each behaviour waits a few milliseconds for its effect to be observable; a failure is reported only if it repeats on a fresh exporter process");
+    rep.assume("kernel-level timing of FIN/RST delivery is not controlled: each behaviour waits a few milliseconds for its effect to be observable; a failure is reported only if it repeats on a fresh exporter process with five times the deadline (15 s)");
     rep.finish()
 }
 
